@@ -404,6 +404,9 @@ def gen_node(w, tag, nid, version, shape):
                 ns.values[keys[0]] = wire_payload(w, f"{tag}.c{i}.des0", 1, 1)
             if len(keys) > 1:
                 ns.values[keys[1]] = None
+            if len(keys) > 2:
+                # a second value type waiting to be flushed: the wake-up burst has several sets
+                ns.values[keys[2]] = wire_payload(w, f"{tag}.c{i}.des1", 1, 1)
             if cs.get("extra_desired", True):
                 k = w.fresh_int(f"{tag}.c{i}.dt")
                 w.assume_fast(one_of(w, k, ok_types))
@@ -431,7 +434,7 @@ SHAPES = {
     "awake1": dict(children=[dict(values=1)]),
     # sleeping node: child 0 covered by the desired state, child 1 presented after the wake-up
     "sleep": dict(sleeping=True, queue=1,
-                  children=[dict(values=2, covered=True), dict(values=1, covered=False)]),
+                  children=[dict(values=3, covered=True), dict(values=1, covered=False)]),
     # a sleeping node that presented a library version between the table versions
     "sleep_v21": dict(sleeping=True, queue=1, node_version="2.1.0",
                       children=[dict(values=2, covered=True), dict(values=1, covered=False)]),
